@@ -13,13 +13,15 @@ import (
 
 func init() { Registry["C12"] = runC12 }
 
-const explanationC12 = "Decides the crash and acceptance shapes named by C12's anchors over every function of package dsl and the validators of package expr: (R12.1) every type assertion in dsl on the evaluation context, on `any` arguments or on data types is comma-ok, a type-switch arm, or dominated by a successful test of the same value; (R12.2) every constant index or slice of a variadic DSL argument list is covered by a dominating bound on its length; (R12.3) results of nil-returning lookups (Find, Attribute, View, Error, Service, UserType, …, computed as pointer/interface-returning functions of expr with an explicit `return nil`) are not dereferenced in dsl or in expr's Validate/Prepare code without a dominating nil test, and pointer variables that a function compares with nil are not dereferenced where no such test dominates; (R12.4) validators are wired and complete — unexported validate* helpers are called with their result consumed, validation results are never dropped, validation loops that record errors have no early exit, search flags set in an inner loop are reset in the enclosing loop (no stale found flag), and self-recursive walkers pass their recursion guard through every recursive call; (R12.5) the validator looks API keys up under the scheme-qualified tag the consumers use; (R12.6) it validates the requirements the finalizer will hand to the generators. shared R06.3 (requirement inheritance in MethodExpr.Finalize: method, else service, else API). (R12.8) package dsl re-exports the names of package expr under their own names. NOT decided: termination and absence of all panics for all DSL programs (whole-program nil/bounds proof), semantic completeness of the validators."
+const explanationC12 = "Decides the crash and acceptance shapes named by C12's anchors over every function of package dsl and the validators of package expr: (R12.1) every type assertion in dsl on the evaluation context, on `any` arguments or on data types is comma-ok, a type-switch arm, or dominated by a successful test of the same value; (R12.2) every constant index or slice of a variadic DSL argument list is covered by a dominating bound on its length; (R12.3) results of nil-returning lookups (Find, Attribute, View, Error, Service, UserType, …, computed as pointer/interface-returning functions of expr with an explicit `return nil`) are not dereferenced in dsl or in expr's Validate/Prepare code without a dominating nil test, and pointer variables that a function compares with nil are not dereferenced where no such test dominates; (R12.4) validators are wired and complete — unexported validate* helpers are called with their result consumed, validation results are never dropped, validation loops that record errors have no early exit, search flags set in an inner loop are reset in the enclosing loop (no stale found flag), and self-recursive walkers pass their recursion guard through every recursive call; (R12.5) the validator looks API keys up under the scheme-qualified tag the consumers use; (R12.6) it validates the requirements the finalizer will hand to the generators. shared R06.3 (requirement inheritance in MethodExpr.Finalize: method, else service, else API). (R12.8) package dsl re-exports the names of package expr under their own names. (R12.9) the parallel slices of ValidationErrors (Errors/Expressions) grow together on every path, so every reported error keeps its expression; (R12.10) the type-switch arms that check transport mappings against the payload (Payload.Find) cover the payload given as an object and as a user type alike. NOT decided: termination and absence of all panics for all DSL programs (whole-program nil/bounds proof), semantic completeness of the validators."
 
 func runC12(c *an.Ctx) string {
 	r121Assertions(c)
 	r122Variadic(c)
 	r123Lookups(c)
 	r124Validators(c)
+	r1210PayloadLookups(c, "R12.10")
+	pairedStoresRule(c, "R12.9", "verrs") // every reported error keeps its location: the two parallel slices grow together
 	r067InheritanceAgreement(c, "R12.6") // the validator checks the requirements the generators will use
 	r06SchemeKeyed(c, "R12.5")           // validator and consumers look API keys up under the same scheme-qualified key
 	r127LinkRecursion(c)
@@ -685,4 +687,81 @@ func r127LinkRecursion(c *an.Ctx) {
 		c.Okf(rule, "expr#link-recursion", "%d recursive groups in package expr; every one that follows a by-name reference carries a visited set or flag", groups)
 	}
 	c.Floor(rule, groups, 10, "recursive function groups in package expr")
+}
+
+// r1210PayloadLookups (R12.10): the validators that check a transport mapping against the method payload
+// (`Payload.Find(name) == nil` → error) sit in a type switch over the payload's type. Find resolves user types, so
+// the arm that performs the lookups must cover the payload given as an object and given as a user type alike; an
+// arm that lists *Object alone accepts every dangling mapping of a design whose payload is a named type (the usual
+// case). Sibling agreement: every such arm of package expr is compared with the others.
+func r1210PayloadLookups(c *an.Ctx, rule string) {
+	sites := 0
+	for _, f := range c.AllFuncs("expr") {
+		info := f.Pkg.TypesInfo
+		ast.Inspect(f.Decl.Body, func(n ast.Node) bool {
+			ts, ok := n.(*ast.TypeSwitchStmt)
+			if !ok {
+				return true
+			}
+			// the switched expression: x.Type.(type) where x is an attribute
+			var ta *ast.TypeAssertExpr
+			switch a := ts.Assign.(type) {
+			case *ast.ExprStmt:
+				ta, _ = an.Unparen(a.X).(*ast.TypeAssertExpr)
+			case *ast.AssignStmt:
+				if len(a.Rhs) == 1 {
+					ta, _ = an.Unparen(a.Rhs[0]).(*ast.TypeAssertExpr)
+				}
+			}
+			if ta == nil {
+				return true
+			}
+			se, ok := an.Unparen(ta.X).(*ast.SelectorExpr)
+			if !ok || se.Sel.Name != "Type" {
+				return true
+			}
+			owner := types.ExprString(se.X)
+			for _, cl := range ts.Body.List {
+				cc := cl.(*ast.CaseClause)
+				hasObj, hasUT := false, false
+				for _, e := range cc.List {
+					switch types.ExprString(e) {
+					case "*Object", "*expr.Object":
+						hasObj = true
+					case "UserType", "expr.UserType":
+						hasUT = true
+					}
+				}
+				if !hasObj {
+					continue
+				}
+				// does the arm look names up in the switched attribute?
+				finds := false
+				for _, s := range cc.Body {
+					ast.Inspect(s, func(m ast.Node) bool {
+						if call, ok := m.(*ast.CallExpr); ok {
+							if fs, ok := an.Unparen(call.Fun).(*ast.SelectorExpr); ok && fs.Sel.Name == "Find" && types.ExprString(fs.X) == owner {
+								if fn, _ := an.Callee(info, call).(*types.Func); fn != nil && strings.HasSuffix(fn.FullName(), "AttributeExpr).Find") {
+									finds = true
+								}
+							}
+						}
+						return true
+					})
+				}
+				if !finds {
+					continue
+				}
+				sites++
+				construct := fmt.Sprintf("%s#switch(%s.Type)", c.RefName(f), an.CanonExpr(f.Pkg.TypesInfo, f.Decl, se.X, nil))
+				if hasUT {
+					c.Okf(rule, construct, "the arm that looks names up in %s covers *Object and UserType", owner)
+				} else {
+					c.Failf(rule, construct, cc.Pos(), "the arm that checks names against %s (%s.Find) is entered for *Object only: when the attribute is given as a user type - which Find resolves - no mapping is checked and dangling names are accepted", owner, owner)
+				}
+			}
+			return true
+		})
+	}
+	c.Floor(rule, sites, 3, "payload-lookup arms of type switches in package expr")
 }
